@@ -36,193 +36,103 @@ static void sexp_set_twos_complement (sexp a) {
   } while (++i<len && carry);
 }
 
-static sexp sexp_twos_complement (sexp ctx, sexp x) {
-  sexp_gc_var1(res);
-  if (sexp_bignump(x) && sexp_bignum_sign(x) < 0) {
-    sexp_gc_preserve1(ctx, res);
-    res = sexp_copy_bignum(ctx, NULL, x, 0);
-    sexp_set_twos_complement(res);
-    sexp_gc_release1(ctx);
-    return res;
+/* Returns word i of the (infinite) twos complement representation of */
+/* the fixnum or bignum x.  For negative bignums the carry of the +1 */
+/* is threaded through *carry, which must start at 1 and be passed */
+/* for i = 0, 1, 2, ... in order. */
+static sexp_uint_t sexp_twos_complement_word (sexp x, sexp_sint_t i, int *carry) {
+  sexp_uint_t w;
+  if (sexp_fixnump(x))
+    return (i == 0) ? (sexp_uint_t)sexp_unbox_fixnum(x)
+      : (sexp_unbox_fixnum(x) < 0 ? SEXP_UINT_T_MAX : 0);
+#if SEXP_USE_BIGNUMS
+  w = (i < (sexp_sint_t)sexp_bignum_length(x)) ? sexp_bignum_data(x)[i] : 0;
+  if (sexp_bignum_sign(x) < 0) {
+    w = ~w + *carry;
+    *carry = (*carry && w == 0);
   }
-  return x;
+  return w;
+#else
+  return 0;
+#endif
 }
 
-static sexp sexp_fixnum_to_twos_complement (sexp ctx, sexp x, int len) {
-  int i;
+#if SEXP_USE_BIGNUMS
+/* Generic bitwise operation where x and y are fixnums or bignums and at */
+/* least one is a bignum.  The result gets one more word than the */
+/* longer operand, so that the high word is a pure sign extension and */
+/* the magnitude of a negative result always fits. */
+static sexp sexp_bignum_bit_op (sexp ctx, int op, sexp x, sexp y) {
+  sexp_sint_t i, len, lenx, leny;
+  sexp_uint_t wx, wy;
+  int cx = 1, cy = 1;
   sexp_gc_var1(res);
   sexp_gc_preserve1(ctx, res);
+  lenx = sexp_bignump(x) ? (sexp_sint_t)sexp_bignum_length(x) : 1;
+  leny = sexp_bignump(y) ? (sexp_sint_t)sexp_bignum_length(y) : 1;
+  len = (lenx > leny ? lenx : leny) + 1;
   res = sexp_make_bignum(ctx, len);
-  if (sexp_unbox_fixnum(x) < 0)
-    for (i = len-1; i > 0; i--)
-      sexp_bignum_data(res)[i] = (sexp_uint_t)((sexp_sint_t)-1);
-  sexp_bignum_data(res)[0] = ~(-(sexp_unbox_fixnum(x)));
-  res = sexp_bignum_fxadd(ctx, res, 1);
-  if (sexp_bignum_length(res) == len + 1 && sexp_bignum_data(res)[len] == 1)
-    sexp_bignum_data(res)[len] = -1;
-  if (sexp_unbox_fixnum(x) < 0)
-    sexp_bignum_sign(res) = -1;
+  if (!sexp_exceptionp(res)) {
+    for (i = 0; i < len; i++) {
+      wx = sexp_twos_complement_word(x, i, &cx);
+      wy = sexp_twos_complement_word(y, i, &cy);
+      sexp_bignum_data(res)[i]
+        = (op == '&') ? (wx & wy) : (op == '|') ? (wx | wy) : (wx ^ wy);
+    }
+    if (((sexp_sint_t)(sexp_bignum_data(res)[len-1])) < 0) {
+      sexp_set_twos_complement(res);
+      sexp_bignum_sign(res) = -1;
+    }
+    res = sexp_bignum_normalize(res);
+  }
   sexp_gc_release1(ctx);
   return res;
 }
+#define sexp_exact_integerp_(x) (sexp_fixnump(x) || sexp_bignump(x))
+#else
+#define sexp_exact_integerp_(x) sexp_fixnump(x)
+#endif
 
 sexp sexp_bit_and (sexp ctx, sexp self, sexp_sint_t n, sexp x, sexp y) {
-#if SEXP_USE_BIGNUMS
-  sexp_sint_t len, lenx, leny, i;
-#endif
-  sexp_gc_var3(res, x2, y2);
-  if (sexp_fixnump(x) && sexp_fixnump(y)) {
+  if (!sexp_exact_integerp_(x))
+    return sexp_type_exception(ctx, self, SEXP_FIXNUM, x);
+  if (!sexp_exact_integerp_(y))
+    return sexp_type_exception(ctx, self, SEXP_FIXNUM, y);
+  if (sexp_fixnump(x) && sexp_fixnump(y))
     return (sexp) ((sexp_uint_t)x & (sexp_uint_t)y);  /* safe to AND tags */
 #if SEXP_USE_BIGNUMS
-  } else if (sexp_fixnump(x) && sexp_bignump(y)) {
-    return sexp_bit_and(ctx, self, n, y, x);
-  } else if (sexp_bignump(x)) {
-    sexp_gc_preserve3(ctx, res, x2, y2);
-    x2 = sexp_twos_complement(ctx, x);
-    y2 = sexp_twos_complement(ctx, y);
-    if (sexp_fixnump(y2) && sexp_unbox_fixnum(y2) < 0)
-      y2 = sexp_fixnum_to_twos_complement(ctx, y2, sexp_bignum_length(x2));
-    if (sexp_fixnump(y2)) {
-      res = sexp_make_fixnum(sexp_unbox_fixnum(y2) & sexp_bignum_data(x2)[0]);
-    } else if (sexp_bignump(y2)) {
-      lenx = sexp_bignum_length(x2);
-      leny = sexp_bignum_length(y2);
-      if (leny < lenx)
-        res = sexp_copy_bignum(ctx, NULL, x2, 0);
-      else
-        res = sexp_copy_bignum(ctx, NULL, y2, 0);
-      for (i=0, len=sexp_bignum_length(res); i<len; i++)
-        sexp_bignum_data(res)[i]
-          = (i<lenx ? sexp_bignum_data(x2)[i] : sexp_bignum_sign(x2) < 0 ? -1 : 0) &
-            (i<leny ? sexp_bignum_data(y2)[i] : sexp_bignum_sign(y2) < 0 ? -1 : 0);
-      if ((sexp_bignum_sign(x2) < 0 || sexp_bignum_sign(y2) < 0) && ((sexp_sint_t)(sexp_bignum_data(res)[len-1])) < 0) {
-        sexp_set_twos_complement(res);
-        if (sexp_bignum_sign(res) > 0) {
-          sexp_negate_exact(res);
-        }
-      } else if (sexp_bignum_sign(res) < 0) {
-        sexp_negate_exact(res);
-      }
-    } else {
-      res = sexp_type_exception(ctx, self, SEXP_FIXNUM, y2);
-    }
-    sexp_gc_release3(ctx);
-    return sexp_bignum_normalize(res);
+  return sexp_bignum_bit_op(ctx, '&', x, y);
+#else
+  return sexp_type_exception(ctx, self, SEXP_FIXNUM, x);
 #endif
-  } else {
-    return sexp_type_exception(ctx, self, SEXP_FIXNUM, x);
-  }
 }
 
 sexp sexp_bit_ior (sexp ctx, sexp self, sexp_sint_t n, sexp x, sexp y) {
+  if (!sexp_exact_integerp_(x))
+    return sexp_type_exception(ctx, self, SEXP_FIXNUM, x);
+  if (!sexp_exact_integerp_(y))
+    return sexp_type_exception(ctx, self, SEXP_FIXNUM, y);
+  if (sexp_fixnump(x) && sexp_fixnump(y))
+    return (sexp) ((sexp_uint_t)x | (sexp_uint_t)y);
 #if SEXP_USE_BIGNUMS
-  sexp_sint_t len, tmplen, i;
+  return sexp_bignum_bit_op(ctx, '|', x, y);
+#else
+  return sexp_type_exception(ctx, self, SEXP_FIXNUM, x);
 #endif
-  sexp_gc_var2(res, tmp);
-  if (sexp_fixnump(x)) {
-    if (sexp_fixnump(y))
-      res = (sexp) ((sexp_uint_t)x | (sexp_uint_t)y);
-#if SEXP_USE_BIGNUMS
-    else if (sexp_bignump(y))
-      res = sexp_bit_ior(ctx, self, n, y, x);
-#endif
-    else
-      res = sexp_type_exception(ctx, self, SEXP_FIXNUM, y);
-#if SEXP_USE_BIGNUMS
-  } else if (sexp_bignump(x)) {
-    sexp_gc_preserve2(ctx, res, tmp);
-    if (sexp_fixnump(y) && sexp_unbox_fixnum(y) >= 0) {
-      res = sexp_copy_bignum(ctx, NULL, x, 0);
-      if (sexp_bignum_sign(res) < 0)
-        sexp_set_twos_complement(res);
-      sexp_bignum_data(res)[0] |= (sexp_uint_t)sexp_unbox_fixnum(y);
-      if (sexp_bignum_sign(res) < 0)
-        sexp_set_twos_complement(res);
-    } else if (sexp_bignump(y) || sexp_fixnump(y)) {
-      if (sexp_fixnump(y) || sexp_bignum_length(x) >= sexp_bignum_length(y)) {
-        res = sexp_copy_bignum(ctx, NULL, x, 0);
-        len = sexp_bignum_length(res);
-        tmp = sexp_fixnump(y) ? sexp_fixnum_to_twos_complement(ctx, y, len) : sexp_twos_complement(ctx, y);
-      } else {
-        res = sexp_copy_bignum(ctx, NULL, y, 0);
-        len = sexp_bignum_length(res);
-        tmp = sexp_twos_complement(ctx, x);
-      }
-      if (sexp_bignum_sign(res) < 0)
-        sexp_set_twos_complement(res);
-      tmplen = sexp_bignum_length(tmp);
-      for (i=0; i<len; i++)
-        sexp_bignum_data(res)[i] |= (i<tmplen ? sexp_bignum_data(tmp)[i] : sexp_bignum_sign(tmp) < 0 ? -1 : 0);
-      if ((sexp_bignum_sign(res) < 0 || sexp_bignum_sign(tmp) < 0) && ((sexp_sint_t)(sexp_bignum_data(res)[len-1])) < 0) {
-        sexp_set_twos_complement(res);
-        if (sexp_bignum_sign(res) > 0) {
-          sexp_negate_exact(res);
-        }
-      }
-    } else {
-      res = sexp_type_exception(ctx, self, SEXP_FIXNUM, y);
-    }
-    sexp_gc_release2(ctx);
-#endif
-  } else {
-    res = sexp_type_exception(ctx, self, SEXP_FIXNUM, x);
-  }
-  return sexp_bignum_normalize(res);
 }
 
 sexp sexp_bit_xor (sexp ctx, sexp self, sexp_sint_t n, sexp x, sexp y) {
+  if (!sexp_exact_integerp_(x))
+    return sexp_type_exception(ctx, self, SEXP_FIXNUM, x);
+  if (!sexp_exact_integerp_(y))
+    return sexp_type_exception(ctx, self, SEXP_FIXNUM, y);
+  if (sexp_fixnump(x) && sexp_fixnump(y))
+    return sexp_make_fixnum(sexp_unbox_fixnum(x) ^ sexp_unbox_fixnum(y));
 #if SEXP_USE_BIGNUMS
-  sexp_sint_t len, tmplen, i;
+  return sexp_bignum_bit_op(ctx, '^', x, y);
+#else
+  return sexp_type_exception(ctx, self, SEXP_FIXNUM, x);
 #endif
-  sexp_gc_var2(res, tmp);
-  if (sexp_fixnump(x)) {
-    if (sexp_fixnump(y))
-      res = sexp_make_fixnum(sexp_unbox_fixnum(x) ^ sexp_unbox_fixnum(y));
-#if SEXP_USE_BIGNUMS
-    else if (sexp_bignump(y))
-      res = sexp_bit_xor(ctx, self, n, y, x);
-#endif
-    else
-      res = sexp_type_exception(ctx, self, SEXP_FIXNUM, y);
-#if SEXP_USE_BIGNUMS
-  } else if (sexp_bignump(x)) {
-    sexp_gc_preserve2(ctx, res, tmp);
-    if (sexp_fixnump(y) && sexp_unbox_fixnum(y) >= 0) {
-      res = sexp_copy_bignum(ctx, NULL, x, 0);
-      if (sexp_bignum_sign(res) < 0)
-        sexp_set_twos_complement(res);
-      sexp_bignum_data(res)[0] ^= sexp_unbox_fixnum(y);
-      if (sexp_bignum_sign(res) < 0)
-        sexp_set_twos_complement(res);
-    } else if (sexp_bignump(y) || sexp_fixnump(y)) {
-      if (sexp_fixnump(y) || sexp_bignum_length(x) >= sexp_bignum_length(y)) {
-        res = sexp_copy_bignum(ctx, NULL, x, 0);
-        tmp = sexp_fixnump(y) ? sexp_fixnum_to_twos_complement(ctx, y, sexp_bignum_length(x)) : sexp_twos_complement(ctx, y);
-        len = sexp_bignum_length(tmp);
-      } else {
-        res = sexp_copy_bignum(ctx, NULL, y, 0);
-        tmp = sexp_twos_complement(ctx, y);
-        len = sexp_bignum_length(tmp);
-      }
-      if (sexp_bignum_sign(res) < 0)
-        sexp_set_twos_complement(res);
-      tmplen = sexp_bignum_length(tmp);
-      for (i=0; i<len; i++)
-        sexp_bignum_data(res)[i] ^= (i<tmplen ? sexp_bignum_data(tmp)[i] : sexp_bignum_sign(tmp) < 0 ? -1 : 0);
-      if ((sexp_bignum_sign(x) < 0) ^ (sexp_fixnump(y) || sexp_bignum_sign(y) < 0))
-        sexp_set_twos_complement(res);
-      if (sexp_fixnump(y) || sexp_bignum_sign(y) < 0) {
-        sexp_negate_exact(res);
-      }
-    } else {
-      res = sexp_type_exception(ctx, self, SEXP_FIXNUM, y);
-    }
-    sexp_gc_release2(ctx);
-#endif
-  } else {
-    res = sexp_type_exception(ctx, self, SEXP_FIXNUM, x);
-  }
-  return sexp_bignum_normalize(res);
 }
 
 static int log2i(sexp_uint_t v) {
